@@ -42,6 +42,30 @@ func genNow() time.Time {
 	}
 }
 
+// tickingClock installs a CounterTime whose k-th reading is now + k*tick: a
+// span must be computed from ONE reading (the model is given the first); code
+// that reads the clock twice gets two different instants, in a share of the
+// cases on both sides of 00:00 UTC.
+func tickingClock(now time.Time) time.Time {
+	tick := Pick(rnd, []time.Duration{0, time.Nanosecond, time.Second, 2 * time.Second, time.Hour, 24 * time.Hour})
+	if rnd.Intn(3) == 0 {
+		// first reading just before midnight: the next one is on the following day
+		if tick == 0 {
+			tick = time.Second
+		}
+		y, m, d := now.Date()
+		now = time.Date(y, m, d+1, 0, 0, 0, 0, time.UTC).Add(-Pick(rnd, []time.Duration{time.Nanosecond, tick}))
+		out.Note("clock-ticks-over-midnight")
+	}
+	k := 0
+	counter.CounterTime = func() time.Time {
+		t := now.Add(time.Duration(k) * tick)
+		k++
+		return t
+	}
+	return now
+}
+
 func genWeekends() (content []byte, missing bool) {
 	switch rnd.Intn(10) {
 	case 0:
@@ -81,7 +105,7 @@ func caseSpan() {
 	wk, missing := genWeekends()
 	dir := setupDir(wk, missing)
 	defer os.RemoveAll(dir)
-	counter.CounterTime = func() time.Time { return now }
+	now = tickingClock(now)
 	b, e, err := counter.VerifCounterSpan()
 	after := readWeekends()
 	if missing {
@@ -101,7 +125,7 @@ func caseFile() {
 	wd := rnd.Intn(7)
 	dir := setupDir([]byte(fmt.Sprintf("%d\n", wd)), false)
 	defer os.RemoveAll(dir)
-	counter.CounterTime = func() time.Time { return now }
+	now = tickingClock(now)
 	f := counter.VerifNewFile()
 	f.Rotate1()
 	name := f.CurrentName()
@@ -196,6 +220,79 @@ func caseRotate() {
 	out.Case(true, fields...)
 }
 
+// share: a second process of the same program (a second file object) starts
+// after the first one created its file, with a possibly different week-end
+// setting and clock: does it count into the first one's file, and if so what
+// span does that file record against the span the process keeps in memory
+// (which schedules its rotation)?
+func caseShare() {
+	now0 := genNow()
+	wd0 := rnd.Intn(7)
+	dir := setupDir([]byte(fmt.Sprintf("%d\n", wd0)), false)
+	defer os.RemoveAll(dir)
+	now := now0
+	counter.CounterTime = func() time.Time { return now }
+	f1 := counter.VerifNewFile()
+	f1.Rotate1()
+	name1 := f1.CurrentName()
+	c1 := f1.NewCounter("c")
+	c1.Add(1)
+	wd1 := wd0
+	if rnd.Intn(4) != 0 {
+		wd1 = rnd.Intn(7)
+	}
+	os.WriteFile(filepath.Join(telemetry.Default.LocalDir(), "weekends"), []byte(fmt.Sprintf("%d\n", wd1)), 0666)
+	switch rnd.Intn(4) {
+	case 0: // later the same day
+		y, m, d := now0.Date()
+		end := time.Date(y, m, d+1, 0, 0, 0, 0, time.UTC)
+		now = now0.Add(time.Duration(rnd.Int63n(int64(end.Sub(now0)))))
+	case 1:
+		now = now0
+	case 2:
+		now = now0.Add(time.Duration(rnd.Int63n(int64(3 * 24 * time.Hour))))
+	default:
+		y, m, d := now0.Date()
+		now = time.Date(y, m, d, rnd.Intn(24), rnd.Intn(60), rnd.Intn(60), 0, time.UTC)
+	}
+	f2 := counter.VerifNewFile()
+	f2.Rotate1()
+	name2 := f2.CurrentName()
+	b2, e2 := f2.Span()
+	opened := name2 != ""
+	var tb, te string
+	if opened {
+		c2 := f2.NewCounter("d")
+		c2.Add(1)
+		f2.Close()
+		data, err := os.ReadFile(name2)
+		if err != nil {
+			panic(err)
+		}
+		pf, err := counter.Parse(name2, data)
+		if err != nil {
+			panic(err)
+		}
+		tb, te = pf.Meta["TimeBegin"], pf.Meta["TimeEnd"]
+		if pf.Count["d"] != 1 {
+			tb = "LOST:" + tb
+		}
+	} else {
+		f2.Close()
+	}
+	f1.Close()
+	switch {
+	case !opened:
+		out.Note("share-refused")
+	case name1 == name2:
+		out.Note("share-same-file")
+	default:
+		out.Note("share-own-file")
+	}
+	out.Case(true, "share", I(now0.Unix()), I(int64(wd0)), I(now.Unix()), I(int64(wd1)), B(opened), B(name1 == name2),
+		I(b2.Unix()), I(e2.Unix()), HS(tb), HS(te))
+}
+
 // upload: a real counter file, then the real uploader (mode local) with a
 // start time relative to the end instant.
 func caseUpload() {
@@ -271,8 +368,10 @@ func main() {
 	defer os.RemoveAll(root)
 	for i := 0; i < n; i++ {
 		switch {
-		case i%10 < 5:
+		case i%10 < 4:
 			caseSpan()
+		case i%10 < 5:
+			caseShare()
 		case i%10 < 7:
 			caseFile()
 		case i%10 < 9:
